@@ -1014,13 +1014,13 @@ func (v *FnVC) Generate() (err error) {
 		t := v.havocVal("fv_"+fvr.Name(), fvr.Type())
 		v.vals[fvr] = t
 	}
-	// axioms of the world
-	v.emitAxioms()
 	blocks := v.order()
 	for _, b := range blocks {
 		v.encodeBlock(b)
 	}
 	v.atExit()
+	v.flushRec()
+	v.emitAxioms()
 	v.flushRec()
 	return nil
 }
